@@ -355,6 +355,19 @@ var c05cells = []c05cell{
 		}
 		return r, []bool{got == "chosen"}
 	}},
+	{name: "login:name:account-without-name", effects: [][]int{{hlref.PrivAnyName}}, name26: true, run: func(x *c05ctx) (*hlref.Tran, []bool) {
+		// the account record has no name: that is no reason to adopt the name the client asks for
+		c := x.w.Connect("10.0.7.8:7")
+		r := c.Login(hlsim.LoginOpts{Login: "nn", Password: "nnpw", Name: []byte("chosen"), Icon: 1})
+		us, _ := x.admin.UserList()
+		got := ""
+		for _, u := range us {
+			if u.ID > x.reqID {
+				got = string(u.Name)
+			}
+		}
+		return r, []bool{got == "chosen"}
+	}},
 	{name: "agreed:name", effects: [][]int{{hlref.PrivAnyName}}, name26: true, run: func(x *c05ctx) (*hlref.Tran, []bool) {
 		c := x.w.Connect("10.0.7.8:7")
 		if c.Login(hlsim.LoginOpts{Login: "req", Password: "reqpw", Version: hlref.BE16(190)}) == nil {
@@ -586,6 +599,7 @@ func c05run(rt *rapid.T, cell *c05cell, bits hlref.Access, via ...string) bool {
 		acct("admin", "Admin", "adminpw", allAccess), acct("obs", "Obs", "obspw", allAccess),
 		acct("victim", "Victim", "vpw", hlref.Access{}), acct("spare", "Spare", "sparepw", hlref.Access{}),
 		{Login: "req", Name: "ReqAcct", Password: "reqpw", Access: bits0},
+		{Login: "nn", Name: "", Password: "nnpw", Access: bits}, // an account record without a name of its own
 	}}
 	inWorld(rt, opt, func(rt *rapid.T, w *hlsim.World) {
 		for _, d := range []string{"dir", "Uploads", "Drop Box", "other"} {
